@@ -156,7 +156,12 @@ func execBatch(c *ctx, in ev) []ev {
 			}
 			br = dec
 		}
-		resp, err := batched.NewBasicBatchedIssuer(issuers...).EvaluateBatch(br)
+		bi := batched.NewBasicBatchedIssuer(issuers...)
+		// the list the issuers were passed in is the caller's: it is reused for something else (another tenant's set)
+		for i := range issuers {
+			issuers[i] = failingIssuer{uint16(1 + i%2), id1}
+		}
+		resp, err := bi.EvaluateBatch(br)
 		if err != nil {
 			e["err"] = "evaluate: " + err.Error()
 			return
